@@ -1,56 +1,58 @@
 package vm_test
 
 import (
-	"fmt"
-	"reflect"
+	"context"
 	"testing"
+	"time"
 
 	"github.com/mattn/anko/env"
 	"github.com/mattn/anko/vm"
 )
 
-// An unhashable map key is an error when written or deleted and reads as nil,
-// also when the key value is taken out of another container (and so arrives
-// wrapped in an interface value). The map must stay unchanged.
-func TestC10M2UnhashableKeyFromContainer(t *testing.T) {
-	wantMap := map[interface{}]interface{}{"b": int64(1)}
-	tests := []struct {
-		script  string
-		wantErr string
-		wantOut interface{}
-	}{
-		{`a = {"b": 1}; k = [[1, 2]]; a[k[0]] = 3`, "type []interface {} cannot be used as map key", nil},
-		{`a = {"b": 1}; k = [{"x": 1}]; a[k[0]] = 3`, "type map[interface {}]interface {} cannot be used as map key", nil},
-		{`a = {"b": 1}; k = [[1, 2]]; delete(a, k[0])`, "type []interface {} cannot be used as map key in delete", nil},
-		{`a = {"b": 1}; k = [[1, 2]]; a[k[0]]`, "", nil},
-		{`a = {"b": 1}; k = [[1, 2]]; {k[0]: 1}`, "type []interface {} cannot be used as map key", nil},
-		// hashable keys taken from a container keep working
-		{`a = {"b": 1}; k = ["b", nil]; a[k[0]]`, "", int64(1)},
-		{`a = {"b": 1}; k = ["b", nil]; a[k[1]]`, "", nil},
-	}
-	for _, tt := range tests {
-		func() {
-			defer func() {
-				if r := recover(); r != nil {
-					t.Errorf("script %q: host panic: %v", tt.script, r)
-				}
-			}()
-			e := env.NewEnv()
-			out, err := vm.Execute(e, nil, tt.script)
-			got := ""
-			if err != nil {
-				got = err.Error()
-			}
-			if got != tt.wantErr {
-				t.Errorf("script %q: error %q, want %q", tt.script, got, tt.wantErr)
-			}
-			if err == nil && !reflect.DeepEqual(out, tt.wantOut) {
-				t.Errorf("script %q: output %#v, want %#v", tt.script, out, tt.wantOut)
-			}
-			a, _ := e.Get("a")
-			if !reflect.DeepEqual(a, wantMap) {
-				t.Errorf("script %q: a = %s, want %s", tt.script, fmt.Sprint(a), fmt.Sprint(wantMap))
-			}
+// Several script goroutines send on a small buffered channel, several script
+// goroutines and the main script range over it. Everything is script code, so
+// once the context is cancelled all of them - in particular the main script -
+// have to stop, at whatever instant the cancellation lands. The run is
+// repeated because the outcome depends on the interleaving of the receivers.
+func TestSeedC02RangeOverSharedBufferedChannelStopsOnCancel(t *testing.T) {
+	script := `
+ch = make(chan int64, 1)
+for i = 0; i < 4; i++ {
+	go func() { for { ch <- 1 } }()
+}
+for i = 0; i < 2; i++ {
+	go func() { for v in ch { } }()
+}
+close(waitChan)
+for v in ch { }
+`
+	const trials = 400
+	for i := 0; i < trials; i++ {
+		e := env.NewEnv()
+		waitChan := make(chan struct{})
+		if err := e.Define("waitChan", waitChan); err != nil {
+			t.Fatal(err)
+		}
+		ctx, cancel := context.WithCancel(context.Background())
+		go func() {
+			<-waitChan
+			time.Sleep(2 * time.Millisecond)
+			cancel()
 		}()
+		done := make(chan error, 1)
+		go func() {
+			_, err := vm.ExecuteContext(ctx, e, nil, script)
+			done <- err
+		}()
+		select {
+		case err := <-done:
+			cancel()
+			if err == nil || err.Error() != vm.ErrInterrupt.Error() {
+				t.Fatalf("trial %d: got error %#v - expected %q", i, err, vm.ErrInterrupt.Error())
+			}
+		case <-time.After(2 * time.Second):
+			cancel()
+			t.Fatalf("trial %d: ExecuteContext still running 2s after its context was cancelled", i)
+		}
 	}
 }
